@@ -168,10 +168,13 @@ impl Node {
             }
             BackendKind::SqliteCipher => {
                 std::fs::create_dir_all(&self.dir).map_err(|e| e.to_string())?;
-                let st = MdkSqliteStorage::new_with_key(
-                    self.db_path(),
-                    EncryptionConfig::new(self.db_key),
-                )
+                // harness self-test of the C13 scanner: a plain database under the cipher label
+                // must be reported (MDK_SIM_PLAIN_AS_CIPHER=1, never set by a registered command)
+                let st = if std::env::var_os("MDK_SIM_PLAIN_AS_CIPHER").is_some() {
+                    MdkSqliteStorage::new_unencrypted(self.db_path())
+                } else {
+                    MdkSqliteStorage::new_with_key(self.db_path(), EncryptionConfig::new(self.db_key))
+                }
                 .map_err(|e| format!("open sqlcipher: {e}"))?;
                 Mdk::Sql(MDK::builder(st).with_config(cfg).with_callback(cb).build())
             }
